@@ -354,3 +354,8 @@ func sexpr(e parse.Expr) string {
 	}
 	return fmt.Sprintf("<%T>", e)
 }
+
+// Exec runs an exec request in the calling process without the sandbox's
+// panic recovery (used by the native fuzz targets, where the fuzzer provides
+// the process isolation).
+func Exec(req *sb.Req) *sb.Resp { return opExec(req) }
